@@ -1053,6 +1053,9 @@ func runE2E(r *lib.Rng, base string, idx int, steps int, plzDir string) *e2eHist
 		h.Steps = append(h.Steps, st)
 		h.Evals++
 		js := map[string]any{"history": idx, "step": si, "kind": kind, "changed": changedVar, "spec": spec, "caller": st.Caller, "executed": st.Executed, "exit": st.Exit}
+		if collisionBefore != nil {
+			js["caller_before"] = collisionBefore // the environment of the build just before this one
+		}
 		fail := func(class, what string) {
 			h.Fails = append(h.Fails, lib.Failing{Class: class, What: what, Input: withDumps(js, st, prev)})
 		}
